@@ -5,7 +5,7 @@
    parser terminates on every byte string. (The Hall-symbol model predicted an out-of-bounds write that
    was confirmed and repaired; see known_findings.json.) Everything else in C02 is decided by the
    sanitizer-instrumented runs over every entry point. *)
-From GV Require Import Base.Str Sym.Op Sym.Triplet Readers.Pir Readers.PirProofs Readers.TripletTotal.
+From GV Require Import Base.Str Sym.Op Sym.Triplet Sym.Group Sym.HallSafe Readers.Pir Readers.PirProofs Readers.TripletTotal.
 Local Open Scope Z_scope.
 
 Theorem C02_pir_total_in_bounds : forall s,
@@ -20,3 +20,15 @@ Print Assumptions C02_triplet_part_terminates.
 Theorem C02_triplet_terminates : forall s nt, parse_triplet s nt <> OutOfFuel.
 Proof. exact parse_triplet_terminates. Qed.
 Print Assumptions C02_triplet_terminates.
+
+(* the Hall-symbol interpreter (symops_from_hall: tokens, rotation and translation symbols, implicit axes, change of
+   basis, Dimino closure): the only array it indexes with a value derived from its input is
+   Op::tran[principal_axis - 'x']; the model makes that index explicit (HOob when outside {0,1,2}).
+   For EVERY byte string the repaired interpreter stays inside the array. *)
+Theorem C02_hall_symbol_in_bounds : forall s, symops_from_hall s <> HOob.
+Proof.
+  intros s. unfold symops_from_hall. pose proof (generators_from_hall_in_bounds s) as H.
+  destruct (generators_from_hall s) as [g| |]; [destruct (add_missing_elements g); discriminate|discriminate|contradiction].
+Qed.
+Print Assumptions C02_hall_symbol_in_bounds.
+
